@@ -47,6 +47,9 @@ def run(tier):
     for p in range(fparts):
         out = os.path.join(wd, f"print{p}.ndjson")
         jobs.append((f"print{p}", [b, "print", out, str(stride), str(p * span), str((p + 1) * span - 1)], out))
+    # printing on the single-precision build: a stride of the float patterns (the doubles are skipped: from > 0)
+    outf = os.path.join(wd, "printf.ndjson")
+    jobs.append(("printf", [bf, "print", outf, str(stride * 5 + 1), "1", str(2**32 - 1)], outf))
     # printing on the Arduino-style build: a stride of the float patterns and the sampled doubles
     outp = os.path.join(wd, "printa.ndjson")
     jobs.append(("printa", [ba, "print", outp, str(stride * 7 + 3), "0", str(2**32 - 1)], outp))
